@@ -194,6 +194,7 @@ func units(tier string, prop string, mon Monitor) []runner.Unit {
 	for bi, base := range schedBases {
 		base := base
 		base.Seed = int64(3000 + bi)
+		base.Stalls = true
 		base.Prop = prop
 		ds := 1
 		if tier == "thorough" && bi < 2 {
